@@ -13,6 +13,7 @@ ASSUMPTIONS = [
     "Config values are only those constructible through the public API: Config::DEFAULT, .match_paths(), .set_match_paths() (bonus fields are pub(crate))",
 ]
 M = "nucleo_matcher"
+_FACTS = [None]
 
 
 def constructible_configs(ctx):
@@ -55,12 +56,27 @@ def eval_threshold(e, cfg):
         return None if a is None or b is None else min(a, b)
     if e[0] in ("deref", "ref"):
         return eval_threshold(e[1], cfg)
+    if e[0] == "call" and _FACTS[0] is not None:
+        # helper method on Config: evaluate its (loop-free, single-expression) body for this configuration
+        b = _FACTS[0].body(M, str(e[1]))
+        if b is not None and "config::Config" in (b.get("impl_self") or ""):
+            f = fn_of(b)
+            rets = ret_aggregates(f)
+            vals = []
+            for bi, si, rv in rets:
+                vals.append(eval_threshold(f.expr_of_rvalue(rv), cfg))
+            for bi, t in f.calls(lambda t: t["dest"]["l"] == 0 and not t["dest"]["p"]):
+                ce = ("call", callee(t), tuple(f.expr_of_operand(a) for a in t["args"]), t.get("fn"), (bi, 0))
+                vals.append(eval_threshold(ce, cfg))
+            if len(vals) == 1:
+                return vals[0]
     return None
 
 
 def rule_early_exit(ctx):
     from props.c03 import bonus_table
     facts = ctx.facts
+    _FACTS[0] = facts
     fnb, order, table = bonus_table(ctx)
     cfgs, writers = constructible_configs(ctx)
     ctx.floor("constructors of bonus configurations", len(writers), 2)
